@@ -270,7 +270,7 @@ func (l *live) apply(op string) {
 		var k int
 		fmt.Sscanf(op[6:], "%d", &k)
 		l.subs[k].closer()
-		l.subs[k].closer() // idempotent
+		l.subs[k].closer()       // idempotent
 		l.subs[k].active = false // a value already buffered stays readable; afterwards the channel reads as closed
 	}
 	// full observable comparison after every step
